@@ -34,6 +34,8 @@ class RefResult:
         self.spec_bodies = st.spec_bodies
         self.visit_ok = st.visit_ok
         self.full_log = st.full_log
+        self.choosers = st.choosers
+        self.chooser_failed = st.chooser_failed
 
     def key(self):
         return ("ok", self.value) if self.ok else ("fail", self.fails)
@@ -46,6 +48,9 @@ class _State:
     def __init__(self):
         self.reads = {}       # key -> present?
         self.read_log = []    # (key, present?) in order
+        self.choosers = set() # bodies executed while computing a value that selects a branch / assignment
+        self.chooser_depth = 0
+        self.chooser_failed = False
         self.must = []        # bodies executed on the (so far) surviving path
         self.touched = []     # every body the eager computation executed
         self.log = []         # body / cb / effect events in eager order (surviving path)
@@ -113,6 +118,18 @@ class Ref:
             del self.st.log[mark_log:]
             self.st.speculated = True
             return False, f
+
+    def choosing(self, fn):
+        """Evaluate fn() as a branch-selecting value (dispatch, bind source, case dispatch / predicate
+        argument, Map iterable)."""
+        self.st.chooser_depth += 1
+        try:
+            return fn()
+        except RFail:
+            self.st.chooser_failed = True
+            raise
+        finally:
+            self.st.chooser_depth -= 1
 
     def all_of(self, thunks):
         """Evaluate every thunk (as an eager computation in unspecified order would); if any fails the
@@ -290,7 +307,7 @@ class Ref:
         return self.user(lambda: sem.step_pair(src, p))
 
     def e_bind(self, n, o):
-        v = self.ev(n["src"], o)
+        v = self.choosing(lambda: self.ev(n["src"], o))
         table = {sem.typed(k): b for k, b in n["table"]}
         return self.ev(table.get(sem.typed(v), n["else"]), o)
 
@@ -299,7 +316,7 @@ class Ref:
         lookup = {}
         for v, b in n["lookup"]:
             lookup[v] = b
-        ok, v = self.attempt(lambda: self.ev(disp, o))
+        ok, v = self.attempt(lambda: self.choosing(lambda: self.ev(disp, o)))
         if not ok:
             if "default" in n:
                 self.st.labels.add("switch-default-by-failure")
@@ -311,23 +328,25 @@ class Ref:
         if "default" in n:
             self.st.labels.add("switch-default-by-unknown")
             return self.ev(n["default"], o)
+        self.st.chooser_failed = True
         raise RFail({("switch",)})
 
     def pred(self, p, value, o):
         if "arg" in p:
-            arg = self.ev(p["arg"], o)
+            arg = self.choosing(lambda: self.ev(p["arg"], o))
             self.st.labels.add("case-option-predicate" if p["arg"]["k"] == "opt" else "case-helper-predicate")
             return self.user(lambda: sem.HELPER_REF[p["p"]](value, arg))
         return self.user(lambda: sem.PREDS[p["p"]](value))
 
     def e_case(self, n, o):
-        v = self.ev(n["disp"], o)
+        v = self.choosing(lambda: self.ev(n["disp"], o))
         for p, b in n["cases"]:
-            if self.pred(p, v, o):
+            if self.choosing(lambda: self.pred(p, v, o)):
                 return self.ev(b, o)
         if "default" in n:
             self.st.labels.add("case-default")
             return self.ev(n["default"], o)
+        self.st.chooser_failed = True
         raise RFail({("case",)})
 
     def e_coalesce(self, n, o):
@@ -374,7 +393,7 @@ class Ref:
 
     def e_map(self, n, o):
         import itertools
-        its = self.all_of([(lambda it=it: self.ev(it, o)) for _, it in n["iters"]])
+        its = self.choosing(lambda: self.all_of([(lambda it=it: self.ev(it, o)) for _, it in n["iters"]]))
         its = [self.user(lambda x=x: list(x.items) if isinstance(x, sem.RefIter) else list(x)) for x in its]
         keys = [k for k, _ in n["iters"]]
         out = []
@@ -487,10 +506,11 @@ class Ref:
         abstract = d.get("abstract")
         if "dispatch" not in d:
             if abstract:
+                self.st.chooser_failed = True
                 raise RFail({("switch",)})
             return None
         disp = {"k": "opt", "key": d["dispatch"]} if isinstance(d["dispatch"], str) else d["dispatch"]
-        ok, v = self.attempt(lambda: self.ev(disp, e))
+        ok, v = self.attempt(lambda: self.choosing(lambda: self.ev(disp, e)))
         if not ok:
             if abstract:
                 raise v
@@ -499,6 +519,7 @@ class Ref:
         if v in lookup:
             return lookup[v]
         if abstract:
+            self.st.chooser_failed = True
             raise RFail({("switch",)})
         return None
 
@@ -506,6 +527,8 @@ class Ref:
         args = self.all_of([(lambda p=p: self.ev(p, e)) for p in d.get("params", [])])
         name = d["name"]
         self.st.touched.append(name)
+        if self.st.chooser_depth:
+            self.st.choosers.add(name)
         self.st.must.append(name)
         self.emit(("body", name))
         args = tuple(sem.freeze(a) for a in args)
